@@ -1,5 +1,340 @@
 import SemVerif.Spec.Preds
 import SemVerif.Inventory
-/-! # Property C13 — theorems (under construction) -/
+import SemVerif.Lemmas.StmtSteps
+/-!
+# Property C13 — analysis is total
+
+* Termination: every function of the model (`SemVerif/Analyzer.lean`) is accepted by Lean as a
+  total function by *structural* recursion over the AST (no `partial`, no well-founded recursion;
+  the two probe loops take fuel `|registry|+1`, shown sufficient in `Lemmas/Names.lean`).
+* `C13`: for every program whose loop-flavoured if-bodies occur only inside loops, the run does not
+  panic.  Nothing below statement level can panic (`ESteps.panic_eq`: the argument-index site is
+  unreachable because the argument count is checked first); the only panic site of the domain is the
+  documented `expect` on the loop labels.
+* The translator's panic-site inventory (`inv_panicSites`) pins the `unwrap` / `expect` / index /
+  counter `+1` sites of the Rust source to the ones the model accounts for.
+What the model cannot exhibit: `RefCell` double borrows, integer overflow, native stack exhaustion —
+covered only by running the real code under `catch_unwind` in the correspondence run.
+-/
 namespace SemVerif
+
+theorem panic_probeLabel (stem : Name) (s : St) : (s.probeLabel stem).2.panic = s.panic := rfl
+
+theorem panic_ifPrologue (g : Globals) (cond : IfCond) (dup isElse : Bool) (le : Option Name) (s : St) :
+    (ifPrologue g cond dup isElse le s).2.2.panic = s.panic := by
+  unfold ifPrologue
+  dsimp only
+  have h0 : (if dup then s.addErr .ifElseDuplicated "if-condition".toList 1 0 else s).panic = s.panic := by
+    cases dup <;> rfl
+  generalize (if dup then s.addErr .ifElseDuplicated "if-condition".toList 1 0 else s) = s0 at h0
+  cases le with
+  | some l =>
+    dsimp only
+    show (ifCondCalc g cond _ _ l isElse _).panic = _
+    rw [(esteps_ifCondCalc g cond _ _ l isElse _).panic_eq]; exact h0
+  | none =>
+    dsimp only
+    show (ifCondCalc g cond _ _ _ isElse _).panic = _
+    rw [(esteps_ifCondCalc g cond _ _ _ isElse _).panic_eq]; exact h0
+
+theorem panic_leave (s : St) : s.leave.2.panic = s.panic := by
+  unfold St.leave
+  cases s.inner with
+  | nil => rfl
+  | cons b rest => cases rest <;> rfl
+
+theorem panic_pushVia (k : Nat) (i : Instr) (s : St) : (s.pushVia k i).panic = s.panic := by
+  unfold St.pushVia St.push St.mapFrames St.mapCur
+  cases s.inner <;> rfl
+
+theorem panic_ifAfterBody (isElse r : Bool) (lElse lEnd : Name) (s : St) :
+    (ifAfterBody isElse r lElse lEnd s).2.panic = s.panic := by
+  unfold ifAfterBody
+  dsimp only
+  rw [panic_leave]
+  cases r <;> cases isElse <;> rfl
+
+theorem panic_ifAfterElse (k : Nat) (r : Bool) (lEnd : Name) (s : St) :
+    (ifAfterElse k r lEnd s).panic = s.panic := by
+  unfold ifAfterElse
+  dsimp only
+  cases r
+  · simp only [Bool.false_eq_true, if_false]; rw [panic_pushVia, panic_leave]
+  · simp only [if_true]; rw [panic_leave]
+
+theorem panic_ifEpilogue (k : Nat) (le : Option Name) (lEnd : Name) (s : St) :
+    (ifEpilogue k le lEnd s).panic = s.panic := by
+  unfold ifEpilogue
+  cases le
+  · simp only [Option.isSome_none, Bool.false_eq_true, if_false]; rw [panic_pushVia]
+  · rfl
+
+theorem panic_loopPrologue (s : St) : (loopPrologue s).2.2.panic = s.panic := rfl
+
+theorem panic_loopEpilogue (r : Bool) (lb le : Name) (s : St) : (loopEpilogue r lb le s).panic = s.panic := by
+  unfold loopEpilogue
+  dsimp only
+  rw [panic_leave]
+  cases r <;> rfl
+
+theorem panic_nestedReturn (g : Globals) (e : Expr) (s : St) : (nestedReturn g e s).1.panic = s.panic := by
+  obtain ⟨s1, h1, h | ⟨r, h⟩⟩ := esteps_nestedReturn_pre g e s
+  · rw [h]; exact h1.panic_eq
+  · rw [h]; exact h1.panic_eq
+
+theorem np_loopWrap (k : Name → Name → Bool → Bool → Bool → St → St × Bool)
+    (hk : ∀ lb le rc bc cc s, s.panic = none → (k lb le rc bc cc s).1.panic = none) (s : St) (hs : s.panic = none) :
+    (loopWrap k s).panic = none := by
+  unfold loopWrap
+  dsimp only
+  rw [panic_loopEpilogue]
+  exact hk _ _ _ _ _ _ (by rw [panic_loopPrologue]; exact hs)
+
+mutual
+theorem np_ifCondition (g : Globals) : ∀ (i : IfStmt) (le : Option Name) (ll : Option (Name × Name)) (s : St),
+    IfStmt.loopOK ll.isSome i = true → s.panic = none → (ifCondition g i le ll s).panic = none
+  | .mk cond body els elif, le, ll, s => by
+    intro hok hs
+    unfold IfStmt.loopOK at hok
+    simp only [Bool.and_eq_true] at hok
+    obtain ⟨⟨hb, he⟩, hei⟩ := hok
+    unfold ifCondition
+    dsimp only
+    rw [panic_ifEpilogue]
+    have h1 : (ifPrologue g cond (els.isSome && elif.isSome) (els.isSome || elif.isSome) le s).2.2.panic = none := by
+      rw [panic_ifPrologue]; exact hs
+    generalize ifPrologue g cond (els.isSome && elif.isSome) (els.isSome || elif.isSome) le s = p at h1
+    obtain ⟨lElse, lEnd, s1⟩ := p
+    dsimp only at h1 ⊢
+    have h2 := np_ifBodies g body lEnd ll s1 hb h1
+    generalize ifBodies g body lEnd ll s1 = q at h2
+    obtain ⟨s2, r⟩ := q
+    dsimp only at h2 ⊢
+    have h3 : (ifAfterBody (els.isSome || elif.isSome) r lElse lEnd s2).2.panic = none := by
+      rw [panic_ifAfterBody]; exact h2
+    generalize ifAfterBody (els.isSome || elif.isSome) r lElse lEnd s2 = q3 at h3
+    obtain ⟨k, s3⟩ := q3
+    dsimp only at h3 ⊢
+    cases els with
+    | some eb =>
+      dsimp only
+      rw [panic_ifAfterElse]
+      exact np_ifBodies g eb lEnd ll s3.enter he h3
+    | none =>
+      cases elif with
+      | some ei => exact np_ifCondition g ei (some lEnd) ll s3 hei h3
+      | none => exact h3
+theorem np_ifBodies (g : Globals) : ∀ (b : IfBodies) (lEnd : Name) (ll : Option (Name × Name)) (s : St),
+    IfBodies.loopOK ll.isSome b = true → s.panic = none → (ifBodies g b lEnd ll s).1.panic = none
+  | .ifb l, lEnd, ll, s => by
+    intro hok hs; unfold IfBodies.loopOK at hok; unfold ifBodies
+    exact np_ifBody g l lEnd ll false s hok hs
+  | .loopb l, lEnd, some (lb, le), s => by
+    intro hok hs; unfold IfBodies.loopOK at hok; simp at hok; unfold ifBodies
+    exact np_ifLoopBody g l lEnd lb le false false false s hok hs
+  | .loopb _, _, none, s => by
+    intro hok _; unfold IfBodies.loopOK at hok; simp at hok
+theorem np_ifBody (g : Globals) : ∀ (l : List IfBodyStmt) (lEnd : Name) (ll : Option (Name × Name)) (rc : Bool) (s : St),
+    IfBodyStmt.loopOKL ll.isSome l = true → s.panic = none → (ifBody g l lEnd ll rc s).1.panic = none
+  | [], _, _, _, s => by intro _ hs; unfold ifBody; exact hs
+  | st :: tl, lEnd, ll, rc, s => by
+    intro hok hs
+    unfold ifBody
+    dsimp only
+    have h0 : (forbidden rc false false s).panic = none := by rw [(esteps_forbidden rc false false s).panic_eq]; exact hs
+    generalize forbidden rc false false s = s0 at h0
+    cases st with
+    | letB b =>
+      unfold IfBodyStmt.loopOKL at hok
+      exact np_ifBody g tl lEnd ll rc _ hok (by rw [(esteps_letBinding g b s0).panic_eq]; exact h0)
+    | bind b =>
+      unfold IfBodyStmt.loopOKL at hok
+      exact np_ifBody g tl lEnd ll rc _ hok (by rw [(esteps_binding g b s0).panic_eq]; exact h0)
+    | call c =>
+      unfold IfBodyStmt.loopOKL at hok
+      exact np_ifBody g tl lEnd ll rc _ hok (by rw [(esteps_callStmt g c s0).panic_eq]; exact h0)
+    | ifS i =>
+      unfold IfBodyStmt.loopOKL at hok
+      simp only [Bool.and_eq_true] at hok
+      exact np_ifBody g tl lEnd ll rc _ hok.2 (np_ifCondition g i (some lEnd) ll s0 hok.1 h0)
+    | loop b =>
+      unfold IfBodyStmt.loopOKL at hok
+      simp only [Bool.and_eq_true] at hok
+      exact np_ifBody g tl lEnd ll rc _ hok.2 (np_loopWrap _ (fun lb le rc bc cc s hs => np_loopBody g b lb le rc bc cc s hok.1 hs) s0 h0)
+    | ret e =>
+      unfold IfBodyStmt.loopOKL at hok
+      dsimp only
+      have h1 : (nestedReturn g e s0).1.panic = none := by rw [panic_nestedReturn]; exact h0
+      generalize nestedReturn g e s0 = q at h1
+      obtain ⟨s1, r⟩ := q
+      exact np_ifBody g tl lEnd ll (rc || r) s1 hok h1
+theorem np_ifLoopBody (g : Globals) : ∀ (l : List IfLoopStmt) (lEnd lb le : Name) (rc bc cc : Bool) (s : St),
+    IfLoopStmt.loopOKL l = true → s.panic = none → (ifLoopBody g l lEnd lb le rc bc cc s).1.panic = none
+  | [], _, _, _, _, _, _, s => by intro _ hs; unfold ifLoopBody; exact hs
+  | st :: tl, lEnd, lb, le, rc, bc, cc, s => by
+    intro hok hs
+    unfold ifLoopBody
+    dsimp only
+    have h0 : (forbidden rc bc cc s).panic = none := by rw [(esteps_forbidden rc bc cc s).panic_eq]; exact hs
+    generalize forbidden rc bc cc s = s0 at h0
+    cases st with
+    | letB b =>
+      unfold IfLoopStmt.loopOKL at hok
+      exact np_ifLoopBody g tl lEnd lb le rc bc cc _ hok (by rw [(esteps_letBinding g b s0).panic_eq]; exact h0)
+    | bind b =>
+      unfold IfLoopStmt.loopOKL at hok
+      exact np_ifLoopBody g tl lEnd lb le rc bc cc _ hok (by rw [(esteps_binding g b s0).panic_eq]; exact h0)
+    | call c =>
+      unfold IfLoopStmt.loopOKL at hok
+      exact np_ifLoopBody g tl lEnd lb le rc bc cc _ hok (by rw [(esteps_callStmt g c s0).panic_eq]; exact h0)
+    | ifS i =>
+      unfold IfLoopStmt.loopOKL at hok
+      simp only [Bool.and_eq_true] at hok
+      exact np_ifLoopBody g tl lEnd lb le rc bc cc _ hok.2 (np_ifCondition g i (some lEnd) (some (lb, le)) s0 hok.1 h0)
+    | loop b =>
+      unfold IfLoopStmt.loopOKL at hok
+      simp only [Bool.and_eq_true] at hok
+      exact np_ifLoopBody g tl lEnd lb le rc bc cc _ hok.2 (np_loopWrap _ (fun lb le rc bc cc s hs => np_loopBody g b lb le rc bc cc s hok.1 hs) s0 h0)
+    | ret e =>
+      unfold IfLoopStmt.loopOKL at hok
+      dsimp only
+      have h1 : (nestedReturn g e s0).1.panic = none := by rw [panic_nestedReturn]; exact h0
+      generalize nestedReturn g e s0 = q at h1
+      obtain ⟨s1, r⟩ := q
+      exact np_ifLoopBody g tl lEnd lb le (rc || r) bc cc s1 hok h1
+    | cont =>
+      unfold IfLoopStmt.loopOKL at hok
+      exact np_ifLoopBody g tl lEnd lb le rc bc true _ hok h0
+    | brk =>
+      unfold IfLoopStmt.loopOKL at hok
+      exact np_ifLoopBody g tl lEnd lb le rc true cc _ hok h0
+theorem np_loopBody (g : Globals) : ∀ (l : List LoopStmt) (lb le : Name) (rc bc cc : Bool) (s : St),
+    LoopStmt.loopOKL l = true → s.panic = none → (loopBody g l lb le rc bc cc s).1.panic = none
+  | [], _, _, _, _, _, s => by intro _ hs; unfold loopBody; exact hs
+  | st :: tl, lb, le, rc, bc, cc, s => by
+    intro hok hs
+    unfold loopBody
+    dsimp only
+    have h0 : (forbidden rc bc cc s).panic = none := by rw [(esteps_forbidden rc bc cc s).panic_eq]; exact hs
+    generalize forbidden rc bc cc s = s0 at h0
+    cases st with
+    | letB b =>
+      unfold LoopStmt.loopOKL at hok
+      exact np_loopBody g tl lb le rc bc cc _ hok (by rw [(esteps_letBinding g b s0).panic_eq]; exact h0)
+    | bind b =>
+      unfold LoopStmt.loopOKL at hok
+      exact np_loopBody g tl lb le rc bc cc _ hok (by rw [(esteps_binding g b s0).panic_eq]; exact h0)
+    | call c =>
+      unfold LoopStmt.loopOKL at hok
+      exact np_loopBody g tl lb le rc bc cc _ hok (by rw [(esteps_callStmt g c s0).panic_eq]; exact h0)
+    | ifS i =>
+      unfold LoopStmt.loopOKL at hok
+      simp only [Bool.and_eq_true] at hok
+      exact np_loopBody g tl lb le rc bc cc _ hok.2 (np_ifCondition g i none (some (lb, le)) s0 hok.1 h0)
+    | loop b =>
+      unfold LoopStmt.loopOKL at hok
+      simp only [Bool.and_eq_true] at hok
+      exact np_loopBody g tl lb le rc bc cc _ hok.2 (np_loopWrap _ (fun lb le rc bc cc s hs => np_loopBody g b lb le rc bc cc s hok.1 hs) s0 h0)
+    | ret e =>
+      unfold LoopStmt.loopOKL at hok
+      dsimp only
+      have h1 : (nestedReturn g e s0).1.panic = none := by rw [panic_nestedReturn]; exact h0
+      generalize nestedReturn g e s0 = q at h1
+      obtain ⟨s1, r⟩ := q
+      exact np_loopBody g tl lb le (rc || r) bc cc s1 hok h1
+    | brk =>
+      unfold LoopStmt.loopOKL at hok
+      exact np_loopBody g tl lb le rc true cc _ hok h0
+    | cont =>
+      unfold LoopStmt.loopOKL at hok
+      exact np_loopBody g tl lb le rc bc true _ hok h0
+end
+
+theorem np_bodyStmts (g : Globals) (resTy : Ty) : ∀ (l : List BodyStmt) (rc : Bool) (s : St),
+    BodyStmt.loopOKL l = true → s.panic = none → (bodyStmts g resTy l rc s).1.panic = none
+  | [], _, s => by intro _ hs; unfold bodyStmts; exact hs
+  | st :: tl, rc, s => by
+    intro hok hs
+    unfold bodyStmts
+    dsimp only
+    have h0 : (forbidden rc false false s).panic = none := by rw [(esteps_forbidden rc false false s).panic_eq]; exact hs
+    generalize forbidden rc false false s = s0 at h0
+    cases st with
+    | letB b =>
+      unfold BodyStmt.loopOKL at hok
+      exact np_bodyStmts g resTy tl rc _ hok (by rw [(esteps_letBinding g b s0).panic_eq]; exact h0)
+    | bind b =>
+      unfold BodyStmt.loopOKL at hok
+      exact np_bodyStmts g resTy tl rc _ hok (by rw [(esteps_binding g b s0).panic_eq]; exact h0)
+    | call c =>
+      unfold BodyStmt.loopOKL at hok
+      exact np_bodyStmts g resTy tl rc _ hok (by rw [(esteps_callStmt g c s0).panic_eq]; exact h0)
+    | ifS i =>
+      unfold BodyStmt.loopOKL at hok
+      simp only [Bool.and_eq_true] at hok
+      exact np_bodyStmts g resTy tl rc _ hok.2 (np_ifCondition g i none none s0 hok.1 h0)
+    | loop b =>
+      unfold BodyStmt.loopOKL at hok
+      simp only [Bool.and_eq_true] at hok
+      exact np_bodyStmts g resTy tl rc _ hok.2 (np_loopWrap _ (fun lb le rc bc cc s hs => np_loopBody g b lb le rc bc cc s hok.1 hs) s0 h0)
+    | expr e =>
+      unfold BodyStmt.loopOKL at hok
+      dsimp only
+      have h1 : (fnReturn g resTy e rc s0).1.panic = none := by rw [(esteps_fnReturn g resTy e rc s0).panic_eq]; exact h0
+      generalize fnReturn g resTy e rc s0 = q at h1
+      obtain ⟨s1, r⟩ := q
+      exact np_bodyStmts g resTy tl r s1 hok h1
+    | ret e =>
+      unfold BodyStmt.loopOKL at hok
+      dsimp only
+      have h1 : (fnReturn g resTy e rc s0).1.panic = none := by rw [(esteps_fnReturn g resTy e rc s0).panic_eq]; exact h0
+      generalize fnReturn g resTy e rc s0 = q at h1
+      obtain ⟨s1, r⟩ := q
+      exact np_bodyStmts g resTy tl r s1 hok h1
+
+/-- one function: no panic when its loop-flavoured if-bodies are inside loops -/
+theorem C13_function (g : Globals) (f : FnDecl) (hok : BodyStmt.loopOKL f.body = true) :
+    (functionBody g f).panic = none := by
+  unfold functionBody
+  dsimp only
+  have h1 : (initParams f.params St.init).panic = none := by
+    rw [(esteps_initParams f.params St.init paramInv_init).panic_eq]; rfl
+  have h2 := np_bodyStmts g f.result.toTy f.body false _ hok h1
+  generalize bodyStmts g f.result.toTy f.body false (initParams f.params St.init) = q at h2
+  obtain ⟨s2, rc⟩ := q
+  cases rc <;> exact h2
+
+theorem firstPanic_none : ∀ (l : List St), (∀ s ∈ l, s.panic = none) → firstPanic l = none
+  | [], _ => rfl
+  | s :: rest, h => by
+    unfold firstPanic
+    rw [h s (by simp)]
+    exact firstPanic_none rest (fun x hx => h x (by simp [hx]))
+
+theorem fns_eq_fnDecls : ∀ (p : Program), p.fns = p.fnDecls
+  | [] => rfl
+  | .fn f :: rest => by simp [Program.fns, Program.fnDecls, fns_eq_fnDecls rest]
+  | .imp _ :: rest => by simp [Program.fns, Program.fnDecls, fns_eq_fnDecls rest]
+  | .types _ :: rest => by simp [Program.fns, Program.fnDecls, fns_eq_fnDecls rest]
+  | .const _ :: rest => by simp [Program.fns, Program.fnDecls, fns_eq_fnDecls rest]
+
+/-- **C13** — inside the documented domain the analysis returns normally -/
+theorem C13 (p : Program) : P_C13 p (run p) = [] := by
+  unfold P_C13
+  cases hok : LoopOKB p with
+  | false => simp
+  | true =>
+    have : (run p).panic = none := by
+      unfold run
+      dsimp only
+      apply firstPanic_none
+      intro s hs
+      simp only [List.mem_map] at hs
+      obtain ⟨f, hf, rfl⟩ := hs
+      apply C13_function
+      unfold LoopOKB at hok
+      rw [List.all_eq_true] at hok
+      exact hok f (by rw [← fns_eq_fnDecls]; exact hf)
+    simp [this]
+
 end SemVerif
